@@ -121,7 +121,9 @@ def rand_doc(rng, flavour, uid=None):
     if uid is not None:
         d["uid"] = uid
     for _ in range(rng.randint(0, 3)):
-        d[rng.choice(WORDS)] = rand_value(rng, flavour, 1)
+        k = rng.choice(WORDS)
+        if k != "uid":                      # a top-level uid is only ever the string asked for
+            d[k] = rand_value(rng, flavour, 1)
     return d
 
 
